@@ -734,6 +734,43 @@ t=t.before('let new_root = Node::difference(self.root.clone(), other.root.clone(
             assert(dreq_ok(view(self.root), view(other.root), df));
         }''')
 emit(t)
+t=M('get_mut', 'let ghost root0 = self.root; let ghost len0 = self.len; let ghost k = *key; let ghost fself = *final(self);')
+# the ghost capture `fself == *final(self)` is made before the loop; loops are verified in isolation by default and `self` cannot be named
+# inside the loop (it is mutably borrowed by the cursor), so the function is verified with loop isolation off
+t.attr('#[verifier::loop_isolation(false)]')
+t.loop(1, '''invariant mappings@.len() == 0, tb(*current), bal(*current), tb(root0), bal(root0), len0 == nsz(root0), k == *key,
+                view(*current).contains_key(k) == view(root0).contains_key(k),
+                view(root0).contains_key(k) ==> view(*current)[k] == view(root0)[k],
+                okfin(*current, *final(current), k) ==> (fself.len == len0 && okfin(root0, fself.root, k)
+                    && (view(*current).contains_key(k) ==> view(fself.root)[k] == view(*final(current))[k])),
+            decreases *current,''')
+t.before('            match current {', '''let ghost cur0 = *current; let ghost fcur = *final(current);
+            proof { lemma_bal_unfold(cur0); if cur0 is None { lemma_okfin_refl(cur0, k); } }''')
+t.after('let node_mut = Rc::make_mut(node);', '''proof {
+                        assert(is_data(cur0));
+                        assert forall|t2: Tree<V>, side: int, c: Tree<V>| #[trigger] node_with(cur0, t2, side, c) && (side == 0 || side == 1 || side == 2)
+                            && (side == 0 ==> k < dn(cur0).key && okfin(lft(cur0), c, k)) && (side == 1 ==> k > dn(cur0).key && okfin(rgt(cur0), c, k)) && (side == 2 ==> k == dn(cur0).key)
+                            implies okfin(cur0, t2, k)
+                                && (side == 0 && view(lft(cur0)).contains_key(k) ==> view(t2)[k] == view(c)[k])
+                                && (side == 1 && view(rgt(cur0)).contains_key(k) ==> view(t2)[k] == view(c)[k])
+                                && (side == 2 ==> view(t2)[k] == dn(t2).value) by {
+                            lemma_okfin_step(cur0, t2, side, c, k);
+                        }
+                    }''')
+t.wrap('                None => ', 'return None', '''proof { assert(okfin(cur0, fcur, k) ==> fself.len == len0); }''')
+t.wrap('Ordering::Equal => ', 'return Some(&mut data_node.value)', '''proof {
+                                        assert(node_with(cur0, fcur, 2, None) ==> okfin(cur0, fcur, k));
+                                        lemma_okfin_step(cur0, cur0, 2, None, k);
+                                    }''')
+t.wrap('Ordering::Less => ', 'current = &mut data_node.left', '''proof {
+                                        lemma_okfin_refl(lft(cur0), k); lemma_okfin_step(cur0, cur0, 0, lft(cur0), k);
+                                        assert(node_with(cur0, fcur, 0, *final(current)));
+                                    }''', after=True)
+t.wrap('Ordering::Greater => ', 'current = &mut data_node.right', '''proof {
+                                        lemma_okfin_refl(rgt(cur0), k); lemma_okfin_step(cur0, cur0, 1, rgt(cur0), k);
+                                        assert(node_with(cur0, fcur, 1, *final(current)));
+                                    }''', after=True)
+emit(t)
 t=M('get', 'let ghost (glo, ghi) = choose|lo: int, hi: int| #[trigger] bst(self.root, lo, hi);')
 t=t.sub('        loop {','''        loop
             invariant mappings@.len() == 0, tb(*current),
